@@ -85,8 +85,12 @@ func (m *Map[K, V]) LoadAndDelete(key K) (V, bool) {
 // LoadAndDelete loads and deletes the value for the key.
 func (m *Map[K, V]) LoadAndDeleteAll() map[K]V {
 	m.mutex.Lock()
-	data := m.data
-	m.data = make(map[K]V)
+	// The caller gets a map of its own and the internal one is emptied in place: a Range that is in the middle of
+	// its iteration (it drops the lock around every callback) goes on iterating the internal map - handing that
+	// very object to the caller would let Range report what the caller writes into it, or crash on the
+	// concurrent access.
+	data := maps.Clone(m.data)
+	clear(m.data)
 	m.mutex.Unlock()
 	return data
 }
